@@ -8,7 +8,7 @@ From Coq Require Import Ascii ZArith.
 Local Open Scope nat_scope.
 Local Open Scope list_scope.
 
-Inductive tok := TId (s : string) | TInt (n : nat) | TReal (q : Q) | TStr (s : string) | TSym (s : string).
+Inductive tok := TId (s : string) | TInt (z : Z) | TReal (q : Q) | TStr (s : string) | TSym (s : string).
 
 Definition code (c : ascii) : nat := nat_of_ascii c.
 Definition is_digit (c : ascii) : bool := (48 <=? code c) && (code c <=? 57).
@@ -23,17 +23,16 @@ Fixpoint span (p : ascii -> bool) (l : list ascii) : list ascii * list ascii :=
   | c :: r => if p c then let (a, b) := span p r in (c :: a, b) else ([], l)
   | [] => ([], [])
   end.
-Fixpoint digits_val (acc : nat) (l : list ascii) : nat :=
-  match l with [] => acc | c :: r => digits_val (10 * acc + (code c - 48)) r end.
+Fixpoint digits_val (acc : Z) (l : list ascii) : Z :=          (* binary integers: literals can have many digits *)
+  match l with [] => acc | c :: r => digits_val (10 * acc + Z.of_nat (code c - 48))%Z r end.
 Definition str_of (l : list ascii) : string := string_of_list_ascii l.
 
 (* value of  ip.fp e(+|-)ed  as a rational *)
 Definition real_val (ip fp : list ascii) (eneg : bool) (ed : list ascii) : Q :=
-  let m := Z.of_nat (digits_val 0 (ip ++ fp)) in
-  let e := Z.of_nat (digits_val 0 ed) in
+  let m := digits_val 0%Z (ip ++ fp) in
+  let e := digits_val 0%Z ed in
   let k := Z.of_nat (length fp) in
-  if eneg then Qmake m (Z.to_pos (10 ^ (k + e)))
-  else Qmake (m * 10 ^ e) (Z.to_pos (10 ^ k)).
+  (if eneg then Qmake m (Z.to_pos (10 ^ (k + e))) else Qmake (m * 10 ^ e) (Z.to_pos (10 ^ k)))%Z.
 
 Definition two_char_sym (a b : ascii) : option string :=
   if (code a =? 45) && (code b =? 62) then Some "->"%string
@@ -76,7 +75,7 @@ Fixpoint lex (fuel : nat) (l : list ascii) : option (list tok) :=
           match lex f r3 with Some ts => Some (TReal (real_val ip fp eneg ed) :: ts) | None => None end
         else if hasexp then None                                        (* 1e5 : a real needs a '.' *)
         else if (match ip with z :: _ :: _ => code z =? 48 | _ => false end) then None     (* 007 *)
-        else match lex f r3 with Some ts => Some (TInt (digits_val 0 ip) :: ts) | None => None end
+        else match lex f r3 with Some ts => Some (TInt (digits_val 0%Z ip) :: ts) | None => None end
       else if code c =? 34 then                                         (* "string" *)
         let (w, r') := span (fun x => negb (code x =? 34) && negb (code x =? 10)) r in
         match r' with
@@ -144,7 +143,7 @@ with patom (fuel : nat) (ts : list tok) {struct fuel} : PR expr :=
   | S f =>
     match ts with
     | TReal q :: r => Some (ENum q, r)
-    | TInt n :: r => Some (ENum (inject_Z (Z.of_nat n)), r)
+    | TInt n :: r => Some (ENum (inject_Z n), r)
     | TSym "(" :: r => match pexp f 0 r with Some (a, TSym ")" :: r') => Some (a, r') | _ => None end
     | TId x :: r =>
         if String.eqb x "pi" then Some (EPi, r)
@@ -188,7 +187,7 @@ Definition pidparams (ts : list tok) : PR (list string) :=
   end.
 Definition parg (ts : list tok) : PR qarg :=
   match ts with
-  | TId r :: TSym "[" :: TInt i :: TSym "]" :: rest => if is_ident r then Some (AIdx r i, rest) else None
+  | TId r :: TSym "[" :: TInt i :: TSym "]" :: rest => if is_ident r then Some (AIdx r (Z.to_nat i), rest) else None
   | TId r :: rest => if is_ident r then Some (AReg r, rest) else None
   | _ => None
   end.
@@ -262,8 +261,8 @@ Fixpoint pstmts (fuel : nat) (p : prog) (ts : list tok) : option prog :=
   | S f =>
     match ts with
     | [] => Some p
-    | TId "qreg" :: TId r :: TSym "[" :: TInt n :: TSym "]" :: TSym ";" :: rest => if is_ident r then pstmts f (add_qreg p r n) rest else None
-    | TId "creg" :: TId r :: TSym "[" :: TInt n :: TSym "]" :: TSym ";" :: rest => if is_ident r then pstmts f (add_creg p r n) rest else None
+    | TId "qreg" :: TId r :: TSym "[" :: TInt n :: TSym "]" :: TSym ";" :: rest => if is_ident r then pstmts f (add_qreg p r (Z.to_nat n)) rest else None
+    | TId "creg" :: TId r :: TSym "[" :: TInt n :: TSym "]" :: TSym ";" :: rest => if is_ident r then pstmts f (add_creg p r (Z.to_nat n)) rest else None
     | TId "include" :: TStr file :: TSym ";" :: rest => if String.eqb file "qelib1.inc" then pstmts f p rest else None
     | TId "gate" :: TId g :: r =>
         if is_ident g then
@@ -288,7 +287,7 @@ Fixpoint pstmts (fuel : nat) (p : prog) (ts : list tok) : option prog :=
     | TId "barrier" :: r =>
         match panylist (S (length r)) r with Some (qs, TSym ";" :: r1) => pstmts f (add_op p (OBarrier qs)) r1 | _ => None end
     | TId "if" :: TSym "(" :: TId c :: TSym "==" :: TInt k :: TSym ")" :: r =>
-        if is_ident c then match pqop (Some (c, k)) r with Some (o, r1) => pstmts f (add_op p o) r1 | None => None end else None
+        if is_ident c then match pqop (Some (c, Z.to_nat k)) r with Some (o, r1) => pstmts f (add_op p o) r1 | None => None end else None
     | _ => match pqop None ts with Some (o, r1) => pstmts f (add_op p o) r1 | None => None end
     end
   end.
